@@ -89,3 +89,9 @@ CHECKS["C20"] = dict(
     text="Backend equivalence is a differential property: the same finite set of operations and inputs is executed on all three backends and every result is compared with the reference model and with the other backends (panic/no-panic must agree). Transposed operands exercise non-standard memory layouts; all-negative / all-positive alphabets exercise the reductions the statement names.",
     note="Lasso / elastic-net fits on the two bindings run in a child process with a 0.25 s CPU deadline (they hang on the unchanged tree: known findings). Tolerances as in the owning properties; logistic regression 1e-5.",
 )
+CHECKS["C14"] = dict(
+    engine="E1",
+    technique="exhaustive enumeration of data matrices (n in 2..4 (5), p in 1..3 (4) over small alphabets incl. non-dyadic {0,0.1},{0,1/3}; both n>p and n<=p) x every k x {covariance, correlation}, truncated SVD for every k<p and k=p -> Err, plus structured families to n=80, p=8; Jacobi-eigenvalue oracle for captured variance, orthonormality, decorrelation, ordering and affinity of the transforms",
+    text="Both code paths (SVD for n>p, symmetric EVD otherwise) and exact rank deficiency are reached by small lattice matrices; the captured variance of the first k components is compared with the k largest eigenvalues of the sample covariance computed by an independent cyclic Jacobi method, which is the optimality statement itself.",
+    note="Tolerances 1e-9*trace with >=10x measured headroom; the covariance divisor convention in correlation mode is not pinned by the statement.",
+)
